@@ -957,3 +957,179 @@ def f_compute(gen, report, sort_post):
                        members=SOLVER_MEMBERS + ["subspace_dim"] if False else None,
                        pre_body=" const Index old_ops_l = g_ops; const Index old_clock_l = g_clock;")
     return COMPUTE_GHOST + t, spec
+
+
+# --------------------------------------------------------------------------- init(init_resid), init(), constructor
+
+def init_spec(gen):
+    hdr = GB if gen else HB
+    return FSpec("init_ptr", "void", [("Solver *", "S"), ("const Scalar *", "init_resid")],
+                 pre=[("argument ranges established by the constructor (everything else about the object is arbitrary)",
+                       "RANGE_OK(S->m_nev, S->m_ncv, S->m_n) && S->m_n <= NMAX && S->m_fac.m_n == S->m_n && S->m_fac.m_m == S->m_ncv && S->m_fac.m_op == S->m_op && S->m_op->n == S->m_n"),
+                      ("caller passes a length-n start vector", "VEC_SIZE(init_resid) == S->m_n"),
+                      ("clock bounded", "0 <= g_clock && g_clock <= CAP")],
+                 post=[(c[0], c[1]) for c in SOLVER_INV_PRE] + [
+                     ("counters restart from the two applications made by init()", "S->m_nmatop == 2 && g_ops == 2 && S->m_niter == 0"),
+                     ("no pair is flagged: accessors return empty results", "S->cnt_conv == 0 && (!(0 <= g_i && g_i < S->m_nev) || !S->m_ritz_conv[g_i])"),
+                     ("step-1 factorization", "S->m_fac.m_k == 1 && S->m_fac.g_valid_k == 1"),
+                     ("every datum compute() can read is re-created by init(): stamps are this init's", "S->m_fac.st_fac == g_clock && S->st_ritz == g_clock && S->st_conv == g_clock && g_clock == old_clock + 1")],
+                 exc_post=[("zero start vector -> invalid_argument; operator exception propagates unchanged", "verif_exc == EXC_invalid_argument || verif_exc == EXC_user"),
+                           ("object keeps consistent shapes (init() can simply be called again)", SHAPES)],
+                 frame=["S->m_nmatop", "S->m_niter", "g_ops", "g_clock", "S->cnt_conv", "S->st_ritz", "S->st_conv", "S->m_fac.m_k", "S->m_fac.g_valid_k", "S->m_fac.m_beta",
+                        "S->m_fac.st_fac", "S->m_fac.g_Vdef", "g_div_zero"],
+                 frame_fresh=[("S->m_ritz_val", "Ritz"), ("S->m_ritz_est", "Ritz"), ("S->m_ritz_conv", "_Bool"), ("S->tag_val", "Index"), ("S->tag_est", "Index"),
+                              ("S->tag_conv", "Index"), ("S->m_fac.m_fac_f", "Scalar")],
+                 frame_fresh_mat=["S->m_ritz_vec", "S->m_fac.m_fac_V", "S->m_fac.m_fac_H"],
+                 may_throw=[1, 7], olds=[("Index", "old_clock", "g_clock")], real=hdr + ":init(const Scalar*)")
+
+
+def f_init(gen, report):
+    hdr, cls = (GB, "GenEigsBase") if gen else (HB, "HermEigsBase")
+    spec = init_spec(gen)
+    pre = [("resize-val", r"m_ritz_val\.resize\(([^;]+)\);", r"m_ritz_val = RITZ_NEW(\1); S->tag_val = IVEC_NEW(\1);", {"max": 1}),
+           ("resize-vec", r"m_ritz_vec\.resize\(([^;]+)\);", r"m_ritz_vec = MAT_NEW(\1);", {"max": 1}),
+           ("resize-est", r"m_ritz_est\.resize\(([^;]+)\);", r"m_ritz_est = RITZ_NEW(\1); S->tag_est = IVEC_NEW(\1);", {"max": 1}),
+           ("resize-conv", r"m_ritz_conv\.resize\(([^;]+)\);", r"m_ritz_conv = BVEC_NEW(\1); S->tag_conv = IVEC_NEW(\1);", {"max": 1}),
+           ("zero-val", r"m_ritz_val\.setZero\(\);", "/* setZero */ g_clock++; S->st_ritz = g_clock;", {"max": 1}),
+           ("zero-vec", r"m_ritz_vec\.setZero\(\);", "/* setZero */", {"max": 1}),
+           ("zero-est", r"m_ritz_est\.setZero\(\);", "/* setZero */", {"max": 1}),
+           ("zero-conv", r"m_ritz_conv\.setZero\(\);", "if (0 <= g_i && g_i < VEC_SIZE(S->m_ritz_conv)) S->m_ritz_conv[g_i] = 0; S->cnt_conv = 0; S->st_conv = g_clock;", {"max": 1}),
+           ("nmatop", r"m_nmatop = 0;", "m_nmatop = 0; g_ops = 0;", {"max": 1}),
+           ("map", r"MapConstVec v0\(init_resid, m_n\);", "Scalar *v0 = (Scalar *)init_resid; MAPLEN_CHECK(v0, S->m_n);", {"max": 1}),
+           ("fac-init", r"m_fac\.init\(v0, m_nmatop\);", "g_clock--; fac_init(&S->m_fac, v0, &S->m_nmatop);", {"max": 1})]
+    t = emit_solver_fn(hdr, cls, "init", "init_ptr", report, ret_c="void", pre=pre, contract=spec.frame_contract(),
+                       params={"init_resid": "const Scalar *"}, params_re=r"init_resid", maythrow=["fac_init"])
+    # init(): fixed-seed random start vector, then init(init_resid.data())
+    f = X.locate(hdr, "init", cls=cls, params_re=r"^\s*$")
+    want = "SimpleRandom<Scalar> rng(0); Vector init_resid = rng.random_vec(m_n); init(init_resid.data());"
+    if " ".join(f.body.split()) != want:
+        raise X.ExtractionBreak("%s::init() is no longer `%s`" % (cls, want))
+    report["%s::init()" % cls] = "forwards a length-m_n SimpleRandom(0) vector to init(const Scalar*) (text checked)"
+    return t, spec
+
+
+def ctor_spec(gen):
+    hdr = GB if gen else HB
+    rng = "1 <= nev && nev <= op->n - 2 && nev + 2 <= ncv && ncv <= op->n" if gen else "1 <= nev && nev <= op->n - 1 && nev < ncv && ncv <= op->n"
+    return FSpec("solver_ctor", "void", [("Solver *", "S"), ("Op *", "op"), ("Index", "nev"), ("Index", "ncv")],
+                 pre=[("operator reports a dimension", "0 <= op->n && op->n <= NMAX"), ("arguments are machine integers away from overflow", "-NMAX <= nev && nev <= NMAX && -NMAX <= ncv && ncv <= NMAX")],
+                 post=[("accepted <=> (nev, ncv) inside the documented range", rng),
+                       ("members as documented", "S->m_n == op->n && S->m_nev == nev && S->m_ncv == ncv && S->m_op == op && S->m_fac.m_op == op && S->m_fac.m_n == op->n && S->m_fac.m_m == ncv && S->m_fac.m_k == 0"),
+                       ("before any compute(): info() is NotComputed, counters are zero", "S->m_info == CompInfo_NotComputed && S->m_nmatop == 0 && S->m_niter == 0"),
+                       ("before any compute(): no flags, so eigenvalues()/eigenvectors() are empty", "S->cnt_conv == 0 && VEC_SIZE(S->m_ritz_conv) == 0")],
+                 exc_post=[("rejected <=> (nev, ncv) outside the documented range, with invalid_argument", "!(%s) && verif_exc == EXC_invalid_argument" % rng)],
+                 frame=["S->m_op", "S->m_n", "S->m_nev", "S->m_ncv", "S->m_nmatop", "S->m_niter", "S->m_info", "S->m_fac.m_op", "S->m_fac.m_n", "S->m_fac.m_m", "S->m_fac.m_k",
+                        "S->m_fac.g_valid_k", "S->cnt_conv"],
+                 frame_fresh=[("S->m_ritz_conv", "_Bool")], may_throw=[1], real=hdr + ":constructor")
+
+
+def f_ctor(gen, report, ordinal=0):
+    hdr, cls = (GB, "GenEigsBase") if gen else (HB, "HermEigsBase")
+    spec = ctor_spec(gen)
+    f = X.locate(hdr, cls, cls=cls, ordinal=ordinal)
+    inits = " ".join(f.inits.split())
+    if ordinal == 0:
+        want = ("m_op(op), m_n(%s.rows()), m_nev(nev), m_ncv(ncv > m_n ? m_n : ncv), m_nmatop(0), m_niter(0), m_fac(ArnoldiOpType(op, Bop), m_ncv), m_info(CompInfo::NotComputed)"
+                % ("m_op" if gen else "op"))
+    else:
+        want = ("m_op_container(create_op_container(std::move(op))), m_op(m_op_container.front()), m_n(m_op.rows()), m_nev(nev), m_ncv(ncv > m_n ? m_n : ncv), "
+                "m_nmatop(0), m_niter(0), m_fac(ArnoldiOpType(m_op, Bop), m_ncv), m_info(CompInfo::NotComputed)")
+    if inits != want:
+        raise X.ExtractionBreak("%s constructor #%d initialiser list changed: %r" % (cls, ordinal, inits))
+    # Arnoldi constructor: m_op(op), m_n(op.rows()), m_m(m), m_k(0)
+    fa = X.locate(AH, "Arnoldi", cls="Arnoldi", ordinal=0)
+    if " ".join(fa.inits.split()) != "m_op(op), m_n(op.rows()), m_m(m), m_k(0)" or fa.body.strip():
+        raise X.ExtractionBreak("Arnoldi constructor changed: %r" % fa.inits)
+    # the initialiser list as statements (members are initialised in declaration order, which is this order)
+    pre_body = (" S->m_op = op; S->m_n = op->n; S->m_nev = nev; S->m_ncv = (ncv > S->m_n ? S->m_n : ncv); S->m_nmatop = 0; S->m_niter = 0; "
+                "S->m_fac.m_op = op; S->m_fac.m_n = op->n; S->m_fac.m_m = S->m_ncv; S->m_fac.m_k = 0; S->m_fac.g_valid_k = 0; "
+                "S->m_info = CompInfo_NotComputed; S->m_ritz_conv = BVEC_NEW(0); S->cnt_conv = 0; /* default-constructed Eigen members are empty */")
+    f.inits = ""
+    t, R = cgen.emit(f, "solver_ctor" + (str(ordinal) if ordinal else ""), ret_c="void", self_type="Solver", self_name="S", members=SOLVER_MEMBERS,
+                     param_types={"op": "Op *", "Bop": "int"}, pre_body=pre_body, contract=spec.frame_contract())
+    t = t.replace("Op * op, int Bop,", "Op *op,").replace("Op * op, int Bop", "Op *op")
+    report["%s::%s#%d" % (cls, cls, ordinal)] = R.fired
+    if R.fired.get("throw", 0) != 2:
+        raise X.ExtractionBreak("%s constructor: expected two range checks that throw" % cls)
+    return t, spec
+
+
+# --------------------------------------------------------------------------- accessors
+
+COUNT_AXIOMS = r'''
+/* Eigen's count() on the flag array, as a ghost prefix function: prefix[e] = number of set flags in [0, e).
+ * Definitional axioms, instantiated where used (each use is counted in the evidence):
+ *   prefix[0] == 0, prefix[e+1] == prefix[e] + flag[e], prefix monotone, prefix[size] == count(). */
+Index *g_prefix;
+#define COUNT_DEF(S, e) __CPROVER_assume(g_prefix[0] == 0 && (!(0 <= (e) && (e) < VEC_SIZE((S)->m_ritz_conv)) || \
+   (g_prefix[(e) + 1] == g_prefix[e] + ((S)->m_ritz_conv[e] ? 1 : 0) && 0 <= g_prefix[e] && g_prefix[(e) + 1] <= g_prefix[VEC_SIZE((S)->m_ritz_conv)])) && \
+   g_prefix[VEC_SIZE((S)->m_ritz_conv)] == (S)->cnt_conv)
+Index g_out, g_src;     /* Skolem output position and the stored position it was taken from */
+'''
+
+
+def accessor_spec(which, gen):
+    hdr = GB if gen else HB
+    if which == "eigenvalues":
+        params = [("Solver *", "S")]
+        post = [("size equals the number of set flags", "ret.size == S->cnt_conv"),
+                ("entry j is the Ritz value stored at the j-th flagged position, in stored order",
+                 "!(0 <= g_out && g_out < ret.size) || (0 <= g_src && g_src < S->m_nev && S->m_ritz_conv[g_src] && g_prefix[g_src] == g_out && ret.tag[g_out] == S->tag_val[g_src])")]
+        ret = "ValOut"
+    else:
+        params = [("Solver *", "S"), ("Index", "nvec")]
+        post = [("number of columns is min(nvec, number of set flags); n rows", "ret.cols == VMIN(nvec, S->cnt_conv) && ret.rows == S->m_n"),
+                ("column j is V times the Ritz vector stored at the j-th flagged position, in stored order (same position as eigenvalue j)",
+                 "!(0 <= g_out && g_out < ret.cols) || (0 <= g_src && g_src < S->m_nev && S->m_ritz_conv[g_src] && g_prefix[g_src] == g_out && ret.coltag[g_out] == S->m_ritz_vec.coltag[g_src])")]
+        ret = "Mat"
+    return FSpec(which, ret, params,
+                 pre=[("object constructed; flags either empty (before init) or one per wanted value", "1 <= S->m_nev && S->m_nev <= NMAX && 0 <= S->m_n && S->m_n <= NMAX && 1 <= S->m_ncv && S->m_ncv <= NMAX && "
+                       "(VEC_SIZE(S->m_ritz_conv) == 0 || VEC_SIZE(S->m_ritz_conv) == S->m_nev) && VEC_SIZE(g_prefix) == VEC_SIZE(S->m_ritz_conv) + 1"),
+                      ("count() is the number of set flags", "0 <= S->cnt_conv && S->cnt_conv <= VEC_SIZE(S->m_ritz_conv)"),
+                      ("stored Ritz data present whenever a flag is set", "S->cnt_conv == 0 || (VEC_SIZE(S->m_ritz_val) == S->m_ncv && VEC_SIZE(S->tag_val) == S->m_ncv && S->m_nev <= S->m_ncv && "
+                       "S->m_ritz_vec.rows == S->m_ncv && S->m_ritz_vec.cols == S->m_nev && S->m_fac.m_fac_V.rows == S->m_n && S->m_fac.m_fac_V.cols == S->m_ncv)")] +
+                     ([("number of eigenvectors requested is non-negative (documented domain)", "0 <= nvec && nvec <= NMAX")] if which != "eigenvalues" else []),
+                 post=post, frame=["g_src"], real=hdr + ":" + which)
+
+
+ACCESSOR_TYPES = "typedef struct { Ritz *data; Index *tag; Index size; } ValOut;\n"
+
+
+def f_eigenvalues(gen, report):
+    hdr, cls = (GB, "GenEigsBase") if gen else (HB, "HermEigsBase")
+    spec = accessor_spec("eigenvalues", gen)
+    extra = [("count", r"const Index nconv = S->m_ritz_conv\.(?:count\(\)|cast<Index>\(\)\.sum\(\));", "const Index nconv = S->cnt_conv;", {"max": 1}),
+             ("res", r"(?:Real|Complex)Vector res\(nconv\);", "ValOut res; res.size = nconv; res.data = RITZ_NEW(nconv); res.tag = IVEC_NEW(nconv);", {"max": 1}),
+             ("copy", r"res\[j\] = S->m_ritz_val\[i\];", "res.data[j] = S->m_ritz_val[i]; res.tag[j] = S->tag_val[i]; if (j == g_out) g_src = i;", {"max": 1}),
+             ("flag", r"if \(S->m_ritz_conv\[i\]\)", "COUNT_DEF(S, i); if (S->m_ritz_conv[i])", {"max": 1})]
+    inv = ("__CPROVER_assigns(i, j, g_src, __CPROVER_object_whole(res.data), __CPROVER_object_whole(res.tag)) "
+           "__CPROVER_loop_invariant(0 <= i && i <= S->m_nev && 0 <= j && j <= nconv && j == g_prefix[i]) "
+           "__CPROVER_loop_invariant(!(0 <= g_out && g_out < j) || (0 <= g_src && g_src < i && S->m_ritz_conv[g_src] && g_prefix[g_src] == g_out && res.tag[g_out] == S->tag_val[g_src])) "
+           "__CPROVER_decreases(S->m_nev - i)")
+    t = emit_solver_fn(hdr, cls, "eigenvalues", "eigenvalues", report, ret_c="ValOut", extra=extra, loops={0: inv},
+                       contract=spec.frame_contract(), pre_body=" COUNT_DEF(S, 0);")
+    return t, spec
+
+
+def f_eigenvectors(gen, report):
+    hdr, cls = (GB, "GenEigsBase") if gen else (HB, "HermEigsBase")
+    spec = accessor_spec("eigenvectors", gen)
+    extra = accessor_rules(report) + [
+        ("count", r"const Index nconv = S->m_ritz_conv\.(?:count\(\)|cast<Index>\(\)\.sum\(\));", "const Index nconv = S->cnt_conv;", {"max": 1}),
+        ("res", r"(?:Complex)?Matrix res\(([^;]+)\);", r"Mat res = MAT_NEW(\1);", {"max": 1}),
+        ("conv", r"(?:Real|Complex)Matrix ritz_vec_conv\(([^;]+)\);", r"Mat ritz_vec_conv = MAT_NEW(\1);", {"max": 1}),
+        ("copy", r"ritz_vec_conv\.col\(j\)\.noalias\(\) = S->m_ritz_vec\.col\(i\);", "COLCOPY(ritz_vec_conv, j, S->m_ritz_vec, i); if (j == g_out) g_src = i;", {"max": 1}),
+        ("flag", r"if \(S->m_ritz_conv\[i\]\)", "COUNT_DEF(S, i); if (S->m_ritz_conv[i])", {"max": 1}),
+        ("product", r"res\.noalias\(\) = S->m_fac\.m_fac_V \* ritz_vec_conv;",
+         "__CPROVER_assert(S->m_fac.m_fac_V.cols == ritz_vec_conv.rows && res.rows == S->m_fac.m_fac_V.rows && res.cols == ritz_vec_conv.cols, @Q@Eigen: product dimensions agree@Q@); "
+         "if (0 <= g_out && g_out < res.cols) res.coltag[g_out] = ritz_vec_conv.coltag[g_out];", {"max": 1})]
+    inv = ("__CPROVER_assigns(i, j, g_src, __CPROVER_object_whole(ritz_vec_conv.coltag)) "
+           "__CPROVER_loop_invariant(0 <= i && i <= S->m_nev && 0 <= j && j <= nvec && j <= g_prefix[i] && (j == g_prefix[i] || j == nvec)) "
+           "__CPROVER_loop_invariant(!(0 <= g_out && g_out < j) || (0 <= g_src && g_src < i && S->m_ritz_conv[g_src] && g_prefix[g_src] == g_out && ritz_vec_conv.coltag[g_out] == S->m_ritz_vec.coltag[g_src])) "
+           "__CPROVER_decreases(S->m_nev - i)")
+    t = emit_solver_fn(hdr, cls, "eigenvectors", "eigenvectors", report, ret_c="Mat", extra=extra, loops={0: inv},
+                       contract=spec.frame_contract(), params_re=r"Index\s+nvec", pre_body=" COUNT_DEF(S, 0);")
+    f = X.locate(hdr, "eigenvectors", cls=cls, params_re=r"^\s*$")
+    if " ".join(f.body.split()) != "return eigenvectors(m_nev);":
+        raise X.ExtractionBreak("%s::eigenvectors() no longer forwards eigenvectors(m_nev)" % cls)
+    return t, spec
